@@ -41,12 +41,14 @@ def loop_ok(a):
 
 
 def mk_job(cases, picks):
-    """picks: list of (case index, mode, variant)"""
+    """picks: list of (case index, mode, variant[, group id]); members of a group are upstreams of one
+    configuration (same tls.Config instance, same bootstrap server), run one after the other"""
     out = []
-    for n, (i, mode, variant) in enumerate(picks):
+    for n, pk in enumerate(picks):
+        i, mode, variant = pk[:3]
         c = cases[i]
         out.append({"id": n, "cid": c.get("cid", n), "a": c["a"], "url": c["url"], "dial": c["dial"], "mode": mode, "variant": variant,
-                    "unasserted": c["unasserted"]})
+                    "unasserted": c["unasserted"], "group": pk[3] if len(pk) > 3 else None})
     return out
 
 
@@ -55,6 +57,8 @@ def judge(ctx, c, r, job_case):
     (signature, text)."""
     a, exp = c["a"], c["exp"]
     where = "%s dial_addr=%r (%s)" % (r["addr"], r["dial_addr"], r["mode"])
+    if job_case.get("group") is not None:
+        where += " [one of several upstreams sharing a tls.Config and a bootstrap server]"
     out = []
     if r.get("panic"):
         return [(sig(a, "panic"), "%s: NewUpstream/Exchange panicked: %s" % (where, r["panic"][:200]))]
@@ -84,8 +88,13 @@ def drive(ctx, binary, cases, picks, timeout_ms=2000):
     jc = mk_job(cases, picks)
     import time
     t0 = time.time()
-    recs, _ = vlib.run_driver(ctx, binary, stdin_obj={"cases": jc, "workers": 16, "timeout_ms": timeout_ms},
-                              timeout=1500)
+    groups = {}
+    for c in jc:
+        if c["group"] is not None:
+            groups.setdefault(c["group"], []).append(c)
+    recs, _ = vlib.run_driver(ctx, binary, stdin_obj={
+        "cases": [c for c in jc if c["group"] is None], "groups": [groups[g] for g in sorted(groups)],
+        "workers": 16, "timeout_ms": timeout_ms}, timeout=1500)
     if len(recs) != len(jc):
         raise vlib.Infra("driver returned %d results for %d cases" % (len(recs), len(jc)))
     recs.sort(key=lambda r: r["id"])
@@ -138,6 +147,8 @@ def replay(ctx):
     case = {"cid": d["case"].get("cid", 0), "a": d["case"]["a"], "url": d["case"]["url"], "dial": d["case"]["dial"], "exp": d["expected"],
             "mayReject": d["mayReject"], "unasserted": d["unasserted"]}
     picks = [(0, d["case"]["mode"], d["case"]["variant"])] * 3
+    if d["case"].get("group") is not None:
+        log("note: this case ran as a member of a group; --replay re-runs it alone (re-run the tier to reproduce a sibling effect)")
     jc, recs = drive(ctx, binary, [case], picks)
     ctx.cov["evaluations"] = len(recs)
     evaluate(ctx, [case], picks, jc, recs)
@@ -158,6 +169,8 @@ def run(ctx):
         "the server name of an IP host is observed through certificate verification (harness certificate valid for "
         "the URL host only), that of a name through the ClientHello SNI; crypto/tls, net/http, quic-go are trusted",
         "dial_addr without port keeps the URL's port (first defined of dial port, URL port, scheme default)",
+        "groups of 3 upstreams are created one after the other in one process with one *tls.Config instance and one bootstrap "
+        "server; each is judged on its own (the contract has no notion of siblings)",
     ]
     # ---- leg A
     vlib.tlc_mc(ctx, "Addr", "Addr_design.cfg", workers=2,
@@ -197,14 +210,37 @@ def run(ctx):
     else:
         picks += [(i, "socks", rng.randrange(6)) for i in stratified(socks_idx, 3)]
         picks += [(i, "loop", rng.randrange(6)) for i in stratified(loop_idx, 1)]
+    # ---- groups: several upstreams of one configuration (shared *tls.Config, shared bootstrap server);
+    # the contract is per address, siblings must not matter
+    def effport(i):
+        return cases[i]["exp"]["port"]
+    tls_pool = [i for i in socks_idx if cases[i]["a"]["scheme"] in ("tls", "tls+pipeline", "https")
+                and not cases[i]["unasserted"] and not cases[i]["mayReject"]]
+    boot_pool = [i for i, c in enumerate(cases) if c["a"]["hk"] == "name" and c["a"]["dial"] == "none"
+                 and c["a"]["scheme"] in ("tls", "tls+pipeline", "https", "quic", "h3")]
+    gpicks, gid = [], 0
+    for _ in range(400 if T else 40):
+        # different URL hosts (names differ by variant, literals by case), one tls.Config
+        ms = rng.sample(tls_pool, 3)
+        gpicks += [(i, "socks", j, gid) for j, i in enumerate(ms)]
+        gid += 1
+        # the same name behind one bootstrap server, different ports / schemes
+        a = rng.choice(boot_pool)
+        others = [i for i in boot_pool if effport(i) != effport(a)]
+        v = rng.randrange(6)
+        gpicks += [(i, "loop", v, gid) for i in [a] + rng.sample(others, 2)]
+        gid += 1
+
     # unasserted addresses are only smoke-run (they cost a timeout each)
     un = [p for p in picks if cases[p[0]]["unasserted"]]
     rng.shuffle(un)
     keep_un = set(map(id, un[:(400 if T else 60)]))
     picks = [p for p in picks if not cases[p[0]]["unasserted"] or id(p) in keep_un]
     rng.shuffle(picks)
+    picks += gpicks
     log("running %d cases (%d socks, %d loop) of %d exported" % (
         len(picks), sum(1 for p in picks if p[1] == "socks"), sum(1 for p in picks if p[1] == "loop"), len(cases)))
+    log("of these %d run as %d groups of 3 upstreams sharing one tls.Config / bootstrap server" % (len(gpicks), gid))
 
     binary = vlib.go_build(ctx, "drv_addr")
     jc, recs = drive(ctx, binary, cases, picks)
